@@ -3,8 +3,21 @@
 Pure functions: the monad is `Id`; closures (`impl FnOnce(..) -> ..`) are function parameters.  `Parsed<T, E>`
 is `ParsedR α ε` (`res (r : Except ε α) | fallthrough`, Model/ParsedExt.lean), mirroring the Rust enum
 `Res(Result<T, E>) | Fallthrough`; `ParsedR.toModel` maps it to the flattened `Model.Parsed` that the C15
-theorems are about.  Not translated: `and_also` / `and_do` (the closure mutates through `&mut T`; closures
-as pure functions cannot express that), `err_into` (`From::from`), and the `ResultExt` impl.
+theorems are about.
+
+`and_also` / `and_do`: the closure receives `&mut T`, a reference into `self` obtained by `if let PAT(value) = &mut self`.
+As pure functions: a closure `impl FnOnce(&mut T) -> R` is a function `T -> (T, R)` (`impl FnOnce(&mut T)`: `T -> T`)
+returning the new value of the referent, and the unit rewrites (`normalise_mut_closure`; any other shape is a
+translation failure)
+
+    if let PAT(value) = &mut self { STMTS }  self
+ ~> match self { PAT(value) => { STMTS'  PAT(value) }  other => other }
+
+where in STMTS' `let r = g(value);` is `let (value, r) = g(value);` and the statement `g(value);` is `let value = g(value);`
+(`value` is used nowhere else): the by-value `self` that the function returns is `PAT` of the referent after the
+closure has run; an early `return` inside STMTS does not mention `self`.
+
+Not translated: `err_into` (`From::from`), and the `ResultExt` impl.
 """
 from unitbase import *
 
@@ -28,8 +41,6 @@ class ParsedUnit(Unit):
     trust_exhaustive = True     # Rust checked the matches; Lean re-checks them when the file is built
     skip = {
         "err_into": "`self.map_err(From::from)`: the conversion is a trait method of the error types",
-        "and_also": "the closure receives `&mut T` and may assign through it",
-        "and_do": "the closure receives `&mut T` and may assign through it",
     }
     rename = {"matches": "matches_", "from": "fromResult"}
     types = {
@@ -40,6 +51,8 @@ class ParsedUnit(Unit):
         "impl FnOnce() -> E": "(Unit → ε)", "impl FnOnce() -> Parsed<T, E>": "(Unit → ParsedR α ε)",
         "impl FnOnce() -> Result<T, E>": "(Unit → Except ε α)", "impl FnOnce(T) -> Result<U, E>": "(α → Except ε β)",
         "impl FnOnce(T) -> T2": "(α → β)", "impl FnOnce(E) -> E2": "(ε → ε')",
+        "impl FnOnce(&mut T) -> Result<(), E>": "(α → α × Except ε Unit)", "impl FnOnce(&mut T)": "(α → α)",
+        "Result<(), E>": "Except ε Unit",
     }
     ctors = {"Res": ".res", "Fallthrough": ".fallthrough"}
 
@@ -53,8 +66,94 @@ class ParsedUnit(Unit):
 
         self.functions = {"Res": res}
 
+        def untranslatable(em, e, env):
+            raise TErr(e[3])
+
+        self.macros = dict(self.macros)
+        self.macros["untranslatable"] = untranslatable
+
     def local_fn(self, short, path):
         return None
+
+    @property
+    def fns(self):
+        return self._fns
+
+    @fns.setter
+    def fns(self, d):
+        for f in d.values():
+            if f.name not in self.skip and any(isinstance(p[1], str) and "&mut" in p[1].replace(" ", "") and "FnOnce" in p[1]
+                                               for p in f.params if p[0] != "self"):
+                try:
+                    self.normalise_mut_closure(f)
+                except TErr as ex:
+                    f.body = ("block", [], ("macro", "untranslatable", None, str(ex)), False)
+        self._fns = d
+
+    def normalise_mut_closure(self, f):
+        """See the module docstring."""
+        bad = TErr(f"parsed::{f.name}: not of the shape `if let PAT(value) = &mut self {{ .. g(value) .. }} self`")
+        closures = {p[0][1] for p in f.params if p[0] != "self" and p[0][0] == "pbind" and "FnOnce" in p[1]}
+        b = f.body
+        if not (f.params[0] == ("self", "mut") and b[0] == "block" and len(b[1]) == 1 and b[2] == ("path", ["self"])):
+            raise bad
+        st = b[1][0]
+        if not (st[0] == "expr" and st[1][0] == "iflet" and st[1][2] == ("un", "&mut", ("path", ["self"])) and st[1][4] is None):
+            raise bad
+        pat, body = st[1][1], st[1][3]
+
+        def binders(p):
+            if p[0] == "pbind":
+                return [p[1]] if p[4] is None and not p[2] and not p[3] else [None]
+            if p[0] == "pts":
+                return [x for q in p[2] for x in binders(q)]
+            return [None]
+
+        def as_expr(p):
+            if p[0] == "pbind":
+                return ("path", [p[1]])
+            return ("call", ("path", p[1]), [as_expr(q) for q in p[2]])
+
+        bs = binders(pat)
+        if len(bs) != 1 or bs[0] is None or body[0] != "block":
+            raise bad
+        stmts = list(body[1])
+        if body[2] is not None:         # a trailing `if` / `if let` without `else` (type `()`) is a statement
+            if not (body[2][0] in ("if", "iflet") and body[2][-1] is None):
+                raise bad
+            stmts.append(("expr", body[2], False))
+        v = bs[0]
+        arg = [("path", [v])]
+
+        def mentions(e):
+            if isinstance(e, tuple):
+                if e == ("path", [v]):
+                    return True
+                return any(mentions(x) for x in e)
+            if isinstance(e, list):
+                return any(mentions(x) for x in e)
+            return False
+
+        out, calls = [], 0
+        for s_ in stmts:
+            if (s_[0] == "let" and s_[1][0] == "pbind" and s_[3] is not None and s_[3][0] == "call" and s_[3][1][0] == "path"
+                    and len(s_[3][1][1]) == 1 and s_[3][1][1][0] in closures and s_[3][2] == arg and s_[4] is None):
+                out.append(("let", ("ptuple", [("pbind", v, False, False, None), s_[1]]), None, s_[3], None))
+                calls += 1
+            elif (s_[0] == "expr" and s_[2] and s_[1][0] == "call" and s_[1][1][0] == "path" and len(s_[1][1][1]) == 1
+                    and s_[1][1][1][0] in closures and s_[1][2] == arg):
+                out.append(("let", ("pbind", v, False, False, None), None, s_[1], None))
+                calls += 1
+            elif mentions(s_):
+                raise bad
+            else:
+                out.append(s_)
+        if calls != 1:
+            raise bad
+        other = "other_"
+        f.body = ("block", [], ("match", ("path", ["self"]),
+                                [(pat, None, ("block", out, as_expr(pat), False)),
+                                 (("pbind", other, False, False, None), None, ("path", [other]))]), b[3])
 
 
 UNIT = ParsedUnit
